@@ -690,7 +690,18 @@ class TcpServerHandler:
                 writer.close()
         self.connections.clear()
         if self.server:
-            self.server.close()
+            server, loop = self.server, self.server.get_loop()
+            if loop.is_running():
+                # Stop accepting now, close the server object two loop iterations later: an accept that
+                # is already under way must create its transport while the server is still open.
+                # asyncio otherwise drops the accepted socket without closing it (assertion in
+                # Server._attach) and that client waits for an answer forever.  The late connection
+                # is closed by handle_client below.
+                for sock in server.sockets:
+                    loop.remove_reader(sock.fileno())
+                loop.call_soon(loop.call_soon, server.close)
+            else:
+                server.close()
         self.server = None
         self.task.cancel()
         self.task = None
@@ -698,6 +709,10 @@ class TcpServerHandler:
         return 1
 
     async def handle_client(self, reader, writer):
+        if self.connection_handler is None:
+            # accepted while the server was shutting down
+            writer.close()
+            return
         self.connections.append(writer)
 
         try:
